@@ -56,7 +56,27 @@ var (
 	haproxyReqCaptureFormAll    = "http://localhost:" + haproxyManagePort + "/capture_req_all"
 )
 
-var regexToFindPathParameters = regexp.MustCompile(`/\{[a-zA-Z0-9-_]+\}`)
+// Any `{...}` path segment is a path parameter for the engine's URL tree
+// (urltree.TryExtractPathParameter), so it is one here as well.
+var regexToFindPathParameters = regexp.MustCompile(`/\{[^/{}]+\}`)
+
+// urlLiteralEscaper escapes the characters of a configured URL that are
+// special in a regular expression, so they are matched literally by HAProxy.
+// `{`, `}` and `*` are left alone: they carry the pattern syntax (path
+// parameters, wildcard) that is translated below.
+var urlLiteralEscaper = strings.NewReplacer(
+	`\`, `\\`,
+	`.`, `\.`,
+	`+`, `\+`,
+	`?`, `\?`,
+	`(`, `\(`,
+	`)`, `\)`,
+	`|`, `\|`,
+	`[`, `\[`,
+	`]`, `\]`,
+	`^`, `\^`,
+	`$`, `\$`,
+)
 
 type HAProxyEndpointData struct {
 	Endpoint     string
@@ -138,7 +158,7 @@ func HaproxyEndpointFormat(
 	requirements *stream_types.ProcessorRequirement,
 ) *HAProxyEndpointData {
 	log.Trace().Msgf("Original URL: %v", url)
-	url = strings.ReplaceAll(url, ".", `\.`)
+	url = urlLiteralEscaper.Replace(url)
 	formattedURL := url
 	wildcardLiteral := "/*"
 	var hasWildcard bool
